@@ -63,6 +63,23 @@
  *      second transmission cycle only (a fault in the first cycle is the history the other transmissions cover).
  *      The seed selected the page's extension (and overwrote it with the magazine defaults) before all triplets of
  *      the X/28 were validated, which only shows when an earlier good X/28 is carried over from the cache.
+ *  (h) packet 8/30 under every subset of event handlers (added after seed C03 round 6).  Which of its checks the
+ *      decoder applies to a packet 8/30 depends on the registered handlers: the initial page link is decoded only
+ *      with a TTX_PAGE handler, parse_bsd() (CNI) only with a NETWORK / NETWORK_ID handler, the local time only with
+ *      a LOCAL_TIME handler, the PDC label only with a PROG_ID handler - and an earlier stage that rejects the packet
+ *      hides what a later stage would have done with it.  All other phases register ONE handler for all five event
+ *      types, so of these stages only the first one that fails was ever observed.  Phase "handler-subsets-830":
+ *      every 8/30 packet of the base transmissions x every one of the 31 non-empty subsets of { TTX_PAGE, NETWORK,
+ *      NETWORK_ID, LOCAL_TIME, PROG_ID } x every single flip and every pair of flips inside every Hamming 8/4 byte
+ *      of the packet (address, designation, initial page link, the 13 PDC bytes of format 2).  Reference runs use the
+ *      same handler subset.  Single flip: full canonical state (events with their payload, in order) equals the
+ *      fault free run.  Two flips in an address byte, the designation byte or a PDC byte of format 2 (everything the
+ *      PROG_ID / NETWORK payload is made of is control data: label flags, CNI, PIL, PTY): "changes nothing" - the
+ *      full state equals the run with the packet dropped, so in particular no event carries values that were never
+ *      transmitted.  Two flips in a byte of the initial page link: the state equals the packet dropped run or the
+ *      fault free run (a decoder without TTX_PAGE handler does not look at the link at all; either way nothing
+ *      untransmitted shows).  The same patterns go through the public vbi_decode_teletext_8302_pdc(): a single flip
+ *      gives the fault free label, two flips in a PDC byte must be refused.
  *
  * Deviations from DESIGN.md: flat enumeration inside pool cases instead of mc_choose()
  * (one "deviation" = one fault pattern on one packet; nothing is gained by prefix
@@ -86,6 +103,7 @@
 #include "src/hamm.h"
 #include "src/format.h"
 #include "src/lang.h"
+#include "src/packet-830.h"
 
 /* ---- independent coders --------------------------------------------------------- */
 
@@ -728,6 +746,7 @@ struct snap {
         uint64_t evkeys, oth_cache, oth_fmt;
         int f_present; unsigned f_lop;
         uint64_t f_rest, f_rowraw[26], f_rowfmt[25];
+        char lastev[128];              /* (h): the last non TTX_PAGE event written out, for the violation detail */
 };
 
 static int focus_pgno = -1, focus_subno = -1;
@@ -754,7 +773,10 @@ static const char *g_level_name[G_NLEV] = { "1", "1.5", "2.5", "3.5" };
 struct gpage { int ok, font[2], screen_color, screen_opacity; vbi_rgba color_map[40]; vbi_char text[25][40]; };
 struct gobs { int np; struct gpage pg[G_MAXPG][G_NLEV]; };
 
-struct evctx { struct hx seq, keys; uint64_t set; int n; int nev; struct pgkey evk[64]; };
+struct evctx { struct hx seq, keys; uint64_t set; int n; int nev; struct pgkey evk[64]; char last[128]; };
+
+#define EV_ALL (VBI_EVENT_TTX_PAGE | VBI_EVENT_NETWORK | VBI_EVENT_NETWORK_ID | VBI_EVENT_LOCAL_TIME | VBI_EVENT_PROG_ID)
+static unsigned run_ev_mask = EV_ALL;   /* event types run_tx() registers its handler for; only phase (h) changes it */
 
 static const char *run_label = "";
 static int verbose;
@@ -784,15 +806,20 @@ static void on_event(vbi_event *e, void *ud)
         case VBI_EVENT_NETWORK:
         case VBI_EVENT_NETWORK_ID:
                 hx_add(&h, &e->ev.network, sizeof e->ev.network);
+                snprintf(x->last, sizeof x->last, "%s nuid %x cni_8301 %x cni_8302 %x", e->type == VBI_EVENT_NETWORK ? "NETWORK" : "NETWORK_ID",
+                         e->ev.network.nuid, e->ev.network.cni_8301, e->ev.network.cni_8302);
                 break;
         case VBI_EVENT_LOCAL_TIME:
                 hx_u64(&h, (uint64_t) e->ev.local_time->time); hx_u64(&h, (uint64_t)(int64_t) e->ev.local_time->seconds_east);
                 hx_u64(&h, e->ev.local_time->seconds_east_valid); hx_u64(&h, e->ev.local_time->dst_state);
+                snprintf(x->last, sizeof x->last, "LOCAL_TIME %lld east %d", (long long) e->ev.local_time->time, e->ev.local_time->seconds_east);
                 break;
         case VBI_EVENT_PROG_ID: {
                 const vbi_program_id *p = e->ev.prog_id;
                 hx_u64(&h, p->channel); hx_u64(&h, p->cni_type); hx_u64(&h, p->cni); hx_u64(&h, p->pil);
                 hx_u64(&h, p->luf | p->mi << 1 | p->prf << 2); hx_u64(&h, p->pcs_audio); hx_u64(&h, p->pty);
+                snprintf(x->last, sizeof x->last, "PROG_ID LCI %d CNI %04x PIL %05x LUF %d MI %d PRF %d PCS %d PTY %02x", (int) p->channel, p->cni, p->pil,
+                         p->luf, p->mi, p->prf, (int) p->pcs_audio, p->pty);
                 break; }
         default:
                 break;
@@ -920,6 +947,7 @@ static void take_snapshot(vbi_decoder *vbi, struct evctx *ev, struct snap *s)
         s->c[C_EVSEQ] = hx_fin(&ev->seq); s->c[C_EVSET] = ev->set + ev->n;
         s->nev = ev->nev; memcpy(s->evk, ev->evk, sizeof s->evk);
         s->nevents = ev->n;
+        memcpy(s->lastev, ev->last, sizeof s->lastev);
 }
 
 /* independent level one character model for the alphabet the transmissions use */
@@ -965,8 +993,7 @@ static void run_tx(const struct tx *t, const uint8_t *skip, int fk, const uint8_
         vbi_decoder *vbi = vbi_decoder_new();
         if (!vbi) die("vbi_decoder_new");
         struct evctx ev; memset(&ev, 0, sizeof ev); hx_init(&ev.seq); hx_init(&ev.keys);
-        if (!vbi_event_handler_register(vbi, VBI_EVENT_TTX_PAGE | VBI_EVENT_NETWORK | VBI_EVENT_NETWORK_ID
-                                             | VBI_EVENT_LOCAL_TIME | VBI_EVENT_PROG_ID, on_event, &ev))
+        if (!vbi_event_handler_register(vbi, run_ev_mask, on_event, &ev))
                 die("event handler");
         for (int i = 0; i < t->n; i++) {
                 double tm = 1000.0 + 0.04 * i;
@@ -1614,6 +1641,116 @@ static void drop_case(uint64_t idx, void *arg)
         mc_count("evaluations", n); mc_count("class_drop", n); mc_count("decoder_runs", n_runs); n_runs = 0;
 }
 
+/* ---- (h) packet 8/30 under every subset of event handlers (seed C03 round 6) --------- */
+/* idx = 8/30 packet * 31 + (handler subset - 1); subset bit i selects hm_ev[i] */
+
+#define NHM 31
+static const struct { unsigned bit; const char *name; } hm_ev[5] = {
+        { VBI_EVENT_TTX_PAGE, "TTX_PAGE" }, { VBI_EVENT_NETWORK, "NETWORK" }, { VBI_EVENT_NETWORK_ID, "NETWORK_ID" },
+        { VBI_EVENT_LOCAL_TIME, "LOCAL_TIME" }, { VBI_EVENT_PROG_ID, "PROG_ID" } };
+static int n830; static struct { int ti, k; } idx830[NT * MAXP];
+
+static const char *hm_name(int sub)
+{
+        static char b[80]; b[0] = 0;
+        for (int i = 0; i < 5; i++) if (sub >> i & 1) { if (b[0]) strcat(b, "+"); strcat(b, hm_ev[i].name); }
+        return b;
+}
+
+static int pid_differs(const vbi_program_id *a, const vbi_program_id *b)
+{
+        return a->channel != b->channel || a->cni_type != b->cni_type || a->cni != b->cni || a->pil != b->pil || a->luf != b->luf || a->mi != b->mi
+               || a->prf != b->prf || a->pcs_audio != b->pcs_audio || a->pty != b->pty;
+}
+
+static const char *h_role(const struct pkt *p, const struct unit *u)
+{
+        if (u->role == R_ADDR) return "address (MRAG)";
+        if (u->role == R_DESIG) return "designation code";
+        if (u->off < 9) return "initial page link byte";
+        return p->kind == PK_8302 ? "PDC byte" : "data byte";
+}
+
+static void hmask_eval(struct casectx *cx, int sub, int u, const uint8_t *mask, int nfl)
+{
+        const struct tx *t = &T[cx->ti]; const struct pkt *p = &t->p[cx->k]; const struct unit *wu = &p->u[u];
+        char ms[160], key[200]; mask_str(mask, ms, sizeof ms);
+        mc_case(NULL, "8/30 handler subset %s: T=%s packet %d (%s) %s", hm_name(sub), t->name, cx->k, pk_name[p->kind], ms);
+        struct snap s;
+        run_label = "faulted"; run_tx(t, NULL, cx->k, mask, NULL, &s);
+        cx->n_eval++;
+        { struct hx h; hx_init(&h); hx_u64(&h, 0x830000 + sub); hx_u64(&h, cx->ti * 64 + cx->k); hx_add(&h, mask, 42); mc_distinct(hx_fin(&h)); }
+        int dbase = snap_diff(&s, get_base(cx), FULL_MASK);
+        if (nfl == 1) {
+                if (dbase) {
+                        snprintf(key, sizeof key, "(h) single bit error in %s not corrected under a handler subset: %s", pk_name[p->kind], h_role(p, wu));
+                        mc_violation(key, "handlers %s, T=%s packet %d %s: differs from the fault free run in: %s; %d events (last: %s), fault free %d (last: %s)", hm_name(sub), t->name, cx->k, ms,
+                                     diff_str(dbase), s.nevents, s.lastev, cx->base.nevents, cx->base.lastev);
+                        explain(cx, mask, 0);
+                } else mc_outcome("(h) %s, single flip in %s: state equal to fault free run", pk_name[p->kind], h_role(p, wu));
+                return;
+        }
+        int ddrop = snap_diff(&s, get_drop(cx), FULL_MASK);
+        int link = wu->role == R_DATA && wu->off < 9;
+        if (ddrop && !(link && !dbase)) {
+                snprintf(key, sizeof key, "(h) %s with uncorrectable %s not ignored under a handler subset", pk_name[p->kind], h_role(p, wu));
+                mc_violation(key, "handlers %s, T=%s packet %d %s: differs from the run without this packet in: %s; %d events (last: %s), without the packet %d (last: %s), fault free %d (last: %s)",
+                             hm_name(sub), t->name, cx->k, ms, diff_str(ddrop), s.nevents, s.lastev, cx->drop.nevents, cx->drop.lastev, get_base(cx)->nevents, cx->base.lastev);
+                explain(cx, mask, 0);
+        } else mc_outcome("(h) %s, uncorrectable %s: %s", pk_name[p->kind], h_role(p, wu), ddrop ? "link unused, equal to fault free run" : "state equal to run without the packet");
+}
+
+/* the public decoder of the PDC label on the same patterns (it looks at bytes 9..21 only) */
+static void hmask_direct(struct casectx *cx, int u, const uint8_t *mask, int nfl)
+{
+        const struct tx *t = &T[cx->ti]; const struct pkt *p = &t->p[cx->k]; const struct unit *wu = &p->u[u];
+        if (p->kind != PK_8302) return;
+        char ms[160]; mask_str(mask, ms, sizeof ms);
+        mc_case(NULL, "vbi_decode_teletext_8302_pdc: T=%s packet %d %s", t->name, cx->k, ms);
+        uint8_t clean[42], buf[42];
+        memcpy(clean, p->b, 42); for (int j = 0; j < 42; j++) buf[j] = p->b[j] ^ mask[j];
+        vbi_program_id ref, got; memset(&ref, 0, sizeof ref); memset(&got, 0, sizeof got);
+        int rok = vbi_decode_teletext_8302_pdc(&ref, clean), gok = vbi_decode_teletext_8302_pdc(&got, buf);
+        mc_count("h_direct_calls", 1);
+        int pdc = wu->role == R_DATA && wu->off >= 9;
+        if (!rok) { mc_violation("(h) vbi_decode_teletext_8302_pdc refuses a fault free packet", "T=%s packet %d", t->name, cx->k); return; }
+        if (nfl == 2 && pdc) {
+                if (gok) mc_violation("(h) vbi_decode_teletext_8302_pdc accepts an uncorrectable PDC byte", "T=%s packet %d %s: returns LCI %d CNI %04x PIL %05x LUF %d MI %d PRF %d PTY %02x, transmitted LCI %d CNI %04x PIL %05x LUF %d MI %d PRF %d PTY %02x",
+                                      t->name, cx->k, ms, (int) got.channel, got.cni, got.pil, got.luf, got.mi, got.prf, got.pty, (int) ref.channel, ref.cni, ref.pil, ref.luf, ref.mi, ref.prf, ref.pty);
+                else mc_outcome("(h) direct call: uncorrectable PDC byte refused");
+        } else {
+                if (!gok || pid_differs(&got, &ref)) mc_violation("(h) vbi_decode_teletext_8302_pdc: label changes with an error outside the PDC bytes or a single bit error", "T=%s packet %d %s: %s", t->name, cx->k, ms, gok ? "different label" : "refused");
+                else mc_outcome("(h) direct call: label equal to fault free label");
+        }
+}
+
+static void hmask_case(uint64_t idx, void *arg)
+{
+        int pi = (int)(idx / NHM), sub = (int)(idx % NHM) + 1;
+        struct casectx cx; case_init(&cx, idx830[pi].ti, idx830[pi].k);
+        const struct tx *t = &T[cx.ti]; const struct pkt *p = &t->p[cx.k];
+        run_ev_mask = 0;
+        for (int i = 0; i < 5; i++) if (sub >> i & 1) run_ev_mask |= hm_ev[i].bit;
+        char key[160]; snprintf(key, sizeof key, "(h) fault in %s under a handler subset", pk_name[p->kind]);
+        mc_case(key, "T=%s packet %d handlers %s", t->name, cx.k, hm_name(sub));
+        /* not vacuous: what the fault free run raises under this subset */
+        mc_count("h_fault_free_events", get_base(&cx)->nevents);
+        if (cx.base.nevents != get_drop(&cx)->nevents) mc_count("h_cases_packet_raises_event", 1);
+        for (int u = 0; u < p->nu; u++) {
+                if (p->u[u].kind != K_H8) continue;
+                for (int a = 0; a < 8; a++) for (int b = a; b < 8; b++) {
+                        uint8_t m[42] = { 0 };
+                        m[p->u[u].off] = (1u << a) | (1u << b);
+                        hmask_eval(&cx, sub, u, m, a == b ? 1 : 2);
+                        if (sub == NHM) hmask_direct(&cx, u, m, a == b ? 1 : 2);
+                }
+        }
+        if (pi == 0 && (sub == 16 || sub == NHM)) mc_sample("T=%s packet %d (%s), handlers %s: each single flip and each pair of flips inside every Hamming 8/4 byte vs fault free / packet dropped run with the same handlers (fault free run: %d events)",
+                                                            t->name, cx.k, pk_name[p->kind], hm_name(sub), cx.base.nevents);
+        mc_count("evaluations", cx.n_eval); mc_count("class_h_handler_subset", cx.n_eval); mc_count("decoder_runs", n_runs); n_runs = 0;
+        run_ev_mask = EV_ALL;
+}
+
 /* thorough: every pair of flips anywhere in one packet, for the first packet of every (kind, designation)
  * of every transmission and every header of the "subcode and control bits" transmission;
  * idx = selected packet * 42 + byte of the first flip */
@@ -1756,19 +1893,22 @@ int main(int argc, char **argv)
         self_check();
         for (int ti = 0; ti < nT; ti++) for (int k = T[ti].first_fault; k < T[ti].n; k++) { pkidx[npk_total].ti = ti; pkidx[npk_total].k = k; npk_total++; }
 
+        for (int i = 0; i < npk_total; i++) { int kd = T[pkidx[i].ti].p[pkidx[i].k].kind; if (kd == PK_8301 || kd == PK_8302) idx830[n830++] = (typeof(idx830[0])){ pkidx[i].ti, pkidx[i].k }; }
+
         mc_meta("level", "fault_enumeration");
-        mc_meta("technique", "bounded-exhaustive fault injection into transmissions of a transmitter model; each faulted transmission runs through vbi_decode() on a fresh decoder and is compared with fault free / packet dropped / page removed reference runs (canonical state hash: events, cache, fetched pages, network data, pages in progress); an X/28 or M/29 with an uncorrectable triplet must in addition leave every transmitted page, fetched at levels 1, 1.5, 2.5 and 3.5, with the character set, colour map, screen colour / opacity and cell attributes of the packet dropped run");
-        mc_meta("rule", "one evaluation = one fault pattern (bit mask on one packet, or one dropped packet) of one base transmission; distinct = distinct (transmission, packet, mask); every pattern flips at least one transmitted bit and the decoder is run on it, so none is trivial; the class counters say which clause judged it; in the three 'retransmitted over the cached copy' transmissions only the packets of the second cycle are faulted, the first cycle is the fault free history that puts the page with its enhancement packets into the cache");
+        mc_meta("technique", "bounded-exhaustive fault injection into transmissions of a transmitter model; each faulted transmission runs through vbi_decode() on a fresh decoder and is compared with fault free / packet dropped / page removed reference runs (canonical state hash: events, cache, fetched pages, network data, pages in progress); an X/28 or M/29 with an uncorrectable triplet must in addition leave every transmitted page, fetched at levels 1, 1.5, 2.5 and 3.5, with the character set, colour map, screen colour / opacity and cell attributes of the packet dropped run; packets 8/30 are in addition faulted under every non-empty subset of the five event handler types (the decoder validates a different part of the packet for each), compared with fault free / packet dropped runs under the same subset including every event's payload, and fed to vbi_decode_teletext_8302_pdc() directly");
+        mc_meta("rule", "one evaluation = one fault pattern (bit mask on one packet, or one dropped packet) of one base transmission; distinct = distinct (transmission, packet, mask); every pattern flips at least one transmitted bit and the decoder is run on it, so none is trivial; the class counters say which clause judged it; in the three 'retransmitted over the cached copy' transmissions only the packets of the second cycle are faulted, the first cycle is the fault free history that puts the page with its enhancement packets into the cache; phase handler-subsets-830: one evaluation = (8/30 packet, handler subset, single flip or pair of flips inside one Hamming 8/4 byte), the counter h_cases_packet_raises_event says in how many (packet, subset) cases the packet raises an event when received intact");
         mc_meta("assume", "page contents limited to the transmitter model's alphabet: letters, digits, space, colon, hyphen, alpha colour codes; 16 base transmissions (plain, update over cached copy with C8 and C4, subpages, clock subcode / C5 / C6 / C7 / C9 / C13, X/26 two packets, X/27/0 + X/27/4, X/28/0 + X/28/4 + M/29/0 + M/29/4, 8/30 format 1, 8/30 format 2, two magazines parallel, magazine serial, Hamming coded MOT rows, four pages with rolling header, and three transmitted twice, identical or updated enhancement packets over the cached first copy: page with X/28/0 (Greek / Cyrillic character sets, own colour map and screen colour) in a magazine with M/29/0 + M/29/4; page with X/28/4 alone and page with X/28/0 + X/28/4; page with X/26/0-1 + X/27/0 + X/27/4)");
+        mc_meta("assume", "all phases but handler-subsets-830 register one handler for all five event types; handler subsets are only varied for packets 8/30, the only packets whose validation depends on the event mask (parse_8_30: TTX_EVENTS, BSDATA_EVENTS, LOCAL_TIME, PROG_ID); one handler per decoder, registered before the first packet");
         mc_meta("assume", "one faulted packet per run (faults in two different packets of one transmission are not combined)");
         mc_meta("assume", "packet types not in the transmissions: X/27/1-3 and 5-7, X/28/1 and 3, MIP/BTT/AIT/POP/DRCS page rows, 8/30 via packet 31");
         mc_meta("assume", "canonical state leaves out bytes raw[0][0..7] of a stored page (the header's address/control bytes kept as received, never decoded again; exp-vtx writes them out verbatim) and the clock_update bit of a TTX_PAGE event whose roll_header is 0 (store_lop() leaves it uninitialised)");
         mc_meta("assume", "(b) for a header while a MOT page is in progress: network data not compared (rows of system pages are parsed into magazine data on receipt)");
         int thorough = mc_tier == MC_THOROUGH;
         select_pair_packets();
-        mc_meta("bound", "%d faulted packets in %d transmissions (all packets; of the three retransmission shapes the second cycle): all 336 single flips per packet; all pairs inside every Hamming 8/4 byte and 24/18 triplet%s; bursts of %s adjacent bits at every position; every single dropped packet%s",
+        mc_meta("bound", "%d faulted packets in %d transmissions (all packets; of the three retransmission shapes the second cycle): all 336 single flips per packet; all pairs inside every Hamming 8/4 byte and 24/18 triplet%s; bursts of %s adjacent bits at every position; every single dropped packet%s; %d packets 8/30 (format 1 and 2) x 31 non-empty subsets of the event handler types { TTX_PAGE, NETWORK, NETWORK_ID, LOCAL_TIME, PROG_ID } x all 8 single flips and all 28 pairs of flips inside every Hamming 8/4 byte of the packet",
                 npk_total, nT, thorough ? " and inside every parity / unprotected byte" : "", thorough ? "2..8" : "2, 3 and 8",
-                thorough ? "; every pair of flips anywhere in one packet (C(336,2) = 56280 per packet) for the first packet of each kind/designation per transmission" : "");
+                thorough ? "; every pair of flips anywhere in one packet (C(336,2) = 56280 per packet) for the first packet of each kind/designation per transmission" : "", n830);
         if (thorough) mc_meta("assume", "pair-anywhere phase covers %d of %d packets (first of each kind and designation in each transmission, all headers of the subcode/control transmission)", nsel, npk_total);
         mc_meta("assume", "memory oracle (phase asan-pass, bin/C03_asan against the ASan-only library): single flips, pairs inside Hamming 8/4 bytes%s, each dropped packet, on %d of %d packets; the differential oracle itself runs on the uninstrumented library",
                 thorough ? " and 24/18 triplets, bursts of 2, 5, 8" : "", thorough ? npk_total : nsel, npk_total);
@@ -1782,6 +1922,7 @@ int main(int argc, char **argv)
                 burst_min = 8; burst_max = 8; mc_pool("burst-8", npk_total, burst_case, NULL, 300);
         }
         mc_pool("drop", nT, drop_case, NULL, 120);
+        mc_pool("handler-subsets-830", (uint64_t) n830 * NHM, hmask_case, NULL, 300);
         if (thorough) mc_pool("pair-anywhere", (uint64_t) nsel * 42, pair_case, NULL, 600);
         if (thorough) mc_pool("asan-pass", npk_total, asan_case, NULL, 900);
         else mc_pool("asan-pass-selected", nsel, asan_case, &nsel, 900);
